@@ -767,6 +767,128 @@ pub fn check_c20(case: &SearchCase, drv: &mut Option<crate::driver::Driver>) -> 
     None
 }
 
+/// check name "c20w": the bundled serde codecs with an identity type that has single-byte, bool, signed and
+/// string fields. `Data(bytes)` is the entropy the values are built from. Judged on the real codecs only: values
+/// round-trip exactly with any suffix, encoding into every shorter buffer is an error (never a panic, never a
+/// silent truncation), decoding every truncation is an error or a different value, nothing panics.
+pub fn check_c20_wide(case: &SearchCase) -> Option<Finding> {
+    use bytes::BufMut;
+    use foca::Codec;
+    use crate::ident::WideId;
+    let (setup, ops) = &case.instances[0];
+    let k = setup.codec;
+    if k == crate::codec::CodecKind::Fixed {
+        return None;
+    }
+    for op in ops {
+        let bytes = match op {
+            Op::Data(b) => b.clone(),
+            _ => continue,
+        };
+        let mut r = Sm::new(fnv(&crate::proto::hex(&bytes)));
+        let mut wid = |r: &mut Sm| WideId {
+            octets: [r.below(256) as u8, *r.pick(&[0u8, 1, 127, 128, 255]), r.below(256) as u8, r.below(3) as u8],
+            up: r.chance(50),
+            port: *r.pick(&[0u16, 1, 127, 128, 16383, 16384, 65535, 8080]),
+            tag: *r.pick(&[0i8, 1, -1, 127, -128, 64]),
+            name: (0..r.below(6)).map(|_| *r.pick(&['a', 'z', '0', 'é', '-'])).collect(),
+            bump: *r.pick(&[0u64, 1, 127, 128, 300, u32::MAX as u64, u64::MAX]),
+        };
+        let n8 = r.below(256) as u8;
+        let msg: Message<WideId> = match r.below(8) {
+            0 => Message::Ping(n8),
+            1 => Message::Ack(n8),
+            2 => Message::PingReq { target: wid(&mut r), probe_number: n8 },
+            3 => Message::IndirectPing { origin: wid(&mut r), probe_number: n8 },
+            4 => Message::IndirectAck { target: wid(&mut r), probe_number: n8 },
+            5 => Message::ForwardedAck { origin: wid(&mut r), probe_number: n8 },
+            6 => Message::Gossip,
+            _ => Message::TurnUndead,
+        };
+        let header = Header { src: wid(&mut r), src_incarnation: r.below(65536) as u16, dst: wid(&mut r), message: msg };
+        let member = Member::new(wid(&mut r), r.below(65536) as u16, *r.pick(&[State::Alive, State::Suspect, State::Down]));
+        let res = std::panic::catch_unwind(|| {
+            let mut problems: Vec<String> = Vec::new();
+            macro_rules! run {
+                ($codec:expr) => {{
+                    let mut c = $codec;
+                    let mut enc: Vec<u8> = Vec::new();
+                    if c.encode_header(&header, &mut enc).is_err() {
+                        problems.push("header does not encode into a growable buffer".into());
+                    }
+                    let mut with = enc.clone();
+                    with.extend_from_slice(&[0xAA, 0x55, 0x01]);
+                    let mut b2: &[u8] = &with;
+                    match c.decode_header(&mut b2) {
+                        Ok(h2) if h2 == header && b2.len() == 3 => {}
+                        _ => problems.push("header round trip".into()),
+                    }
+                    for sz in 0..enc.len() {
+                        let mut lim = Vec::new().limit(sz);
+                        if c.encode_header(&header, &mut lim).is_ok() {
+                            problems.push(format!("header encoded into {} < {} bytes", sz, enc.len()));
+                        }
+                        if lim.get_ref().len() > sz {
+                            problems.push(format!("header wrote past a {}-byte limit", sz));
+                        }
+                        let mut t: &[u8] = &enc[..sz];
+                        if let Ok(hx) = c.decode_header(&mut t) {
+                            if hx == header {
+                                problems.push(format!("truncated header ({} of {}) decoded to the same value", sz, enc.len()));
+                            }
+                        }
+                    }
+                    let mut encm: Vec<u8> = Vec::new();
+                    if c.encode_member(&member, &mut encm).is_err() {
+                        problems.push("member does not encode into a growable buffer".into());
+                    }
+                    let mut with = encm.clone();
+                    with.extend_from_slice(&[0xAA, 0x55]);
+                    let mut b2: &[u8] = &with;
+                    match c.decode_member(&mut b2) {
+                        Ok(m2) if m2 == member && b2.len() == 2 => {}
+                        _ => problems.push("member round trip".into()),
+                    }
+                    for sz in 0..encm.len() {
+                        let mut lim = Vec::new().limit(sz);
+                        if c.encode_member(&member, &mut lim).is_ok() {
+                            problems.push(format!("member encoded into {} < {} bytes", sz, encm.len()));
+                        }
+                        if lim.get_ref().len() > sz {
+                            problems.push(format!("member wrote past a {}-byte limit", sz));
+                        }
+                    }
+                    // what foca's send path does: several members into one limited buffer until one does not fit
+                    for sz in [encm.len(), encm.len() + 1, 2 * encm.len() + 1, 3 * encm.len() - 1] {
+                        let mut lim = Vec::new().limit(sz);
+                        let mut n = 0;
+                        while n < 6 && c.encode_member(&member, &mut lim).is_ok() {
+                            n += 1;
+                        }
+                        if lim.get_ref().len() > sz {
+                            problems.push(format!("members wrote past a {}-byte limit", sz));
+                        }
+                    }
+                }};
+            }
+            match k {
+                crate::codec::CodecKind::Postcard => run!(foca::PostcardCodec),
+                _ => run!(foca::BincodeCodec(bincode::config::standard())),
+            }
+            problems
+        });
+        match res {
+            Err(_) => return Some(f("decoding or encoding never panics", &format!("C20:wide-panic:{}", k.name()), format!("identity with single-byte fields, entropy {}", crate::proto::hex(&bytes)))),
+            Ok(p) => {
+                if let Some(p) = p.first() {
+                    return Some(f("values round-trip exactly; short buffers are an error", &format!("C20:wide:{}:{}", k.name(), p.split(' ').next().unwrap_or("")), format!("{} (entropy {})", p, crate::proto::hex(&bytes))));
+                }
+            }
+        }
+    }
+    None
+}
+
 pub fn search_c20(seed: u64, first: u64, n_evals: u64) -> SearchOut {
     let mut out = SearchOut::default();
     let mut drv = crate::driver::Driver::spawn().ok();
@@ -837,7 +959,16 @@ pub fn search_c20(seed: u64, first: u64, n_evals: u64) -> SearchOut {
         }
         if let Some(fd) = check_c20(&case, &mut drv) {
             if !out.violations.iter().any(|(g, _)| g.signature == fd.signature) {
-                out.violations.push((fd, case));
+                out.violations.push((fd, case.clone()));
+            }
+        }
+        if ci % 4 == 0 && codec != crate::codec::CodecKind::Fixed {
+            let wcase = SearchCase { check: "c20w".into(), instances: case.instances.clone() };
+            out.bump("wide-identity");
+            if let Some(fd) = check_c20_wide(&wcase) {
+                if !out.violations.iter().any(|(g, _)| g.signature == fd.signature) {
+                    out.violations.push((fd, wcase));
+                }
             }
         }
     }
